@@ -375,6 +375,9 @@ func runDetailPrint(c *core.Ctx) {
 					"the hidden error "+f.Name()+" is rendered to text before it is printed: the safe printer sees a plain string, so in redacted output and in reports the hidden error's safe parts are redacted along with the rest")
 			}
 		}
+		// a layer's own detail is printed whatever lies below it
+		c.Check(sh.DetailCauseGuard == "", et.Name()+": detail independent of the cause", pos, "no detail print is guarded by a condition computed from the cause",
+			"whether the layer prints its own detail depends on what its cause chain contains ("+sh.DetailCauseGuard+"): for some compositions the layer's entry in %+v is empty although the layer carries the annotation")
 		if et.Struct.NumFields() <= 1 || annotationOnly {
 			c.Ob(et.Name(), pos, true, fmt.Sprintf("%d Print call(s) inside the p.Detail() region", sh.DetailPrints))
 		}
